@@ -10,11 +10,13 @@ COMMON_NOTE = ("Trusted: Lean 4.33.0 kernel (axioms propext, Classical.choice, Q
 
 # --- anchored functions (names as in lean/GoSup/Generated/Skeleton.lean, without the skel_ prefix) ---
 SUP_CORE = ["supervisor_New", "supervisor_PIDZero_Run", "supervisor_PIDZero_Shutdown", "supervisor_PIDZero_reap",
-            "supervisor_PIDZero_startRunnable", "supervisor_PIDZero_blockUntilRunnableReady", "supervisor_PIDZero_SendSignal",
+            "supervisor_PIDZero_startRunnable", "supervisor_PIDZero_goTracked", "supervisor_PIDZero_blockUntilRunnableReady",
+            "supervisor_PIDZero_SendSignal",
             "supervisor_PIDZero_listenForSignals", "supervisor_PIDZero_startShutdownManager", "supervisor_WithContext",
             "supervisor_WithShutdownTimeout", "supervisor_WithStartupInitial", "supervisor_WithStartupTimeout",
             "supervisor_WithRunnables", "supervisor_WithSignals"]
-SUP_RELOAD = ["supervisor_PIDZero_ReloadAll", "supervisor_PIDZero_startReloadManager", "supervisor_PIDZero_reloadAllRunnables"]
+SUP_RELOAD = ["supervisor_PIDZero_ReloadAll", "supervisor_PIDZero_reloadOnSignal", "supervisor_PIDZero_startReloadManager",
+              "supervisor_PIDZero_reloadAllRunnables"]
 SUP_STATE = ["supervisor_PIDZero_startStateMonitor", "supervisor_PIDZero_broadcastState", "supervisor_PIDZero_AddStateSubscriber",
              "supervisor_PIDZero_SubscribeStateChanges", "supervisor_PIDZero_unsubscribeState", "supervisor_PIDZero_GetStateMap",
              "finitestate_Machine_getStateChanInternal", "finitestate_Machine_GetStateChan"]
@@ -191,6 +193,44 @@ PROPS["C17"] = {
     "design_ref": "DESIGN.md section 5, C17",
 }
 
+PROPS["C18"] = {
+    "skeleton_fns": ["supervisor_PIDZero_ReloadAll", "finitestate_Machine_getStateChanInternal", "supervisor_PIDZero_SubscribeStateChanges",
+                     "supervisor_PIDZero_unsubscribeState"],
+    "lean_modules": ["GoSup.Props.C18", "GoSup.Tie.C18"],
+    "theorems": ["GoSup.Props.C18.c18_no_leak", "GoSup.Props.C18.c18_unsafe_point_leaks", "GoSup.Props.C18.tableSafe_sound",
+                 "GoSup.Props.C18.c18_table_no_leak"],
+    "ties": ["GoSup.Tie.C18.tie_goroutines"],
+    "legs": [{"name": "leak", "cmd": "leak", "timeout": 3000}],
+    "rule": "static: the extractor lists every go statement / WaitGroup.Go of the supervisor, finitestate and the three runner packages "
+            "with the points where the goroutine can block (select alternatives, bare channel operations, calls; calls of functions "
+            "of the same receiver are inlined to depth 4); the kernel checks on every run that every point has an alternative "
+            "classified (lean/GoSup/Expected/GoroutineClasses.lean, each with its justification) as never blocking, enabled after "
+            "termination, or a WaitGroup wait on lower-ranked sites. Dynamic: seeded scenarios against a live supervisor (1-4 mock "
+            "runnables over 12 capability combinations, a state flapper, a real httpserver runner), composite, HTTP server (loopback), "
+            "HTTP cluster (real servers) and the bare FSM: 1-4 rounds of SIGHUP / unknown signals / reload triggers / reloads with and "
+            "without membership or configuration change / config pushes / requests / idle connections / state subscriptions that drain "
+            "or are abandoned unread / subscribe-unsubscribe pairs, then SIGTERM, SIGINT, cancel, Shutdown, a shutdown trigger, Stop; "
+            "after every round the library's goroutines (created by library frames, or WaitGroup.Go of a library function) are counted "
+            "at quiescence; after termination and cancellation of every subscription context the remaining library goroutines, "
+            "including connection goroutines of the http.Server the library created, are listed (waiting up to 6.5 s, i.e. past "
+            "go-fsm's 5 s broadcast timeout, before anything is called a leak). Oracle Spec.C18.holds. One scenario at a time per "
+            "process (goroutine dumps are process-wide), 12 processes. Non-trivial = every scenario; distinct by configuration and operations.",
+    "assumptions": ["runnables honour the Runnable contract (Run returns after Stop / cancellation); goroutines of go-fsm and net/http are "
+                    "observed by the oracle but not part of the static table",
+                    "clean termination = Run returned nil; histories that end with an error are only checked for accumulation"],
+    "trusted_base": ["blocking-point scan of tools/extract (syntactic; channel types are not resolved, a call through an interface or a "
+                     "different receiver is listed by name and classified by hand)",
+                     "the hand-written classification lean/GoSup/Expected/GoroutineClasses.lean",
+                     "runtime.Stack goroutine dumps and the harness's attribution of goroutines to the library"],
+    "level_text": "Theorem: in the goroutine machine (any number of sites, goroutines, spawns, any control flow between the blocking points of "
+                  "a site, any schedule) a table in which every blocking point has a safe alternative has no reachable terminated quiescent "
+                  "state with a live goroutine; the condition is necessary (a point with only partner alternatives leaks). Tie: the "
+                  "regenerated goroutine table passes the check (decide +kernel).",
+    "level_note": COMMON_NOTE + "Partial: the non-accumulation half of the property (repeated operations do not add goroutines while running) "
+                  "is decided by the oracle on sampled histories only; the theorem covers the termination half.",
+    "design_ref": "DESIGN.md section 5, C18",
+}
+
 PROPS["C07"] = {
     "skeleton_fns": LIFECYCLE + ["composite_Runner_Run", "composite_Runner_Stop", "httpserver_Runner_Run", "httpserver_Runner_Stop",
                                  "httpcluster_Runner_Run", "httpcluster_Runner_Stop"],
@@ -246,8 +286,13 @@ for _pid, _thms, _text in [
         "lean_modules": ["GoSup.Props." + _pid],
         "theorems": _thms,
         "ties": [],
-        "legs": [{"name": "sup", "cmd": "sup"}] + ([{"name": "errclass", "cmd": "errclass"}] if _pid == "C04" else []),
-        "rule": SUP_RULE,
+        "legs": ([{"name": "sup", "cmd": "sup", "panic_is_failure": _pid == "C02"}]
+                 + ([{"name": "errclass", "cmd": "errclass"}] if _pid == "C04" else [])
+                 + ([{"name": "wgstress", "cmd": "wgstress", "panic_is_failure": True, "timeout": 3000}] if _pid == "C02" else [])),
+        "rule": SUP_RULE + (" Stress leg (C02 only): 3 processes with GOMAXPROCS=4 and 6 spinning goroutines each run 2500 (thorough: 40000) "
+                            "supervisors of 12 immediately-ready runnables with 20 us start-up delay and call Shutdown() 50-350 us "
+                            "after Run() began; a panic or fatal error with library frames in any process of a leg of this property "
+                            "is a failing input (the report is the replay)." if _pid == "C02" else ""),
         "assumptions": SUP_ASSUME,
         "trusted_base": [],
         "level_text": _text,
